@@ -286,6 +286,9 @@ func checkC05(c *Ctx) {
 	off := genOffFromLedger(c)
 	for i := 0; i < n; i++ {
 		g := NewGen(rand.New(rand.NewSource(c.Seed*7000003 + int64(i))))
+		if i%2 == 1 {
+			g.PLib = 12 // every other program also calls the modelled library (extension functions, abs, keys)
+		}
 		for f := range off {
 			g.Off[f] = true
 		}
